@@ -42,6 +42,15 @@ MUTANTS = [
  ("c12_forvar_not_deleted_on_error", "C12", [(L, "    _VAR.clear()\n    _PARAMS.clear()\n\n    lexer = blackbirdLexer(data)", "    if not _PARAMS:\n        _VAR.clear()\n    _PARAMS.clear()\n\n    lexer = blackbirdLexer(data)")]),
  ("c12_cleanup_only_on_exception", "C12", [(L, "    _VAR.clear()\n    _PARAMS.clear()\n\n    lexer = blackbirdLexer(data)", "    lexer = blackbirdLexer(data)"),
                                            (L, "    walker.walk(blackbird, tree)\n\n    return blackbird.program", "    try:\n        walker.walk(blackbird, tree)\n    except Exception:\n        _VAR.clear()\n        _PARAMS.clear()\n        raise\n\n    return blackbird.program")]),
+ ("c12_disk_include_cache_mtime_seconds", "C12", [
+     (L, "        cwd = os.path.dirname(filename)\n        data = antlr4.FileStream(filename)\n",
+         "        import hashlib, pickle, tempfile\n        cwd = os.path.dirname(filename)\n        data = antlr4.FileStream(filename)\n"
+         "        key = hashlib.sha1((os.path.abspath(filename) + str(int(os.path.getmtime(filename)))).encode()).hexdigest()\n"
+         "        cache = os.path.join(tempfile.gettempdir(), 'bbinc-' + key + '.pkl')\n"
+         "        if os.path.exists(cache):\n            with open(cache, 'rb') as f:\n                bb, inc = pickle.load(f)\n"
+         "            self._includes[bb.name] = [filename, bb]\n            self._includes.update(inc)\n            return\n"),
+     (L, "        bb = listener.program\n        self._includes[bb.name] = [filename, bb]\n",
+         "        bb = listener.program\n        with open(cache, 'wb') as f:\n            pickle.dump((bb, listener._includes), f)\n        self._includes[bb.name] = [filename, bb]\n")]),
  # ---- C07 -------------------------------------------------------------------
  ("c07_swallow_permission_error", "C07", [(L, "        data = antlr4.FileStream(filename)\n\n        # parse the included file", "        try:\n            data = antlr4.FileStream(filename)\n        except PermissionError:\n            warnings.warn(\"cannot read include \" + filename)\n            return\n\n        # parse the included file")]),
  ("c07_load_uses_getcwd", "C07", [(I, "    cwd = os.path.dirname(filename)\n", "    cwd = os.getcwd()\n")]),
